@@ -22,6 +22,9 @@ use serde_json::json;
 fn no_fault(_: &OpDesc) -> bool {
     false
 }
+fn real_call(d: &OpDesc) -> bool {
+    d.kind != "start" && d.kind != "vrf_key"
+}
 
 fn permutations(n: usize) -> Vec<Vec<usize>> {
     fn rec(cur: &mut Vec<usize>, used: &mut Vec<bool>, n: usize, out: &mut Vec<Vec<usize>>) {
@@ -120,6 +123,24 @@ fn scenarios<TC: ModelCfg>(quick: bool, three: bool) -> Vec<ScCase> {
             });
         }
     }
+    // one storage call of either publish fails (any real call): the failing call has no effect, the other
+    // takes effect as a whole
+    let mut faulty = vec![];
+    for c in out.iter().filter(|c| matches!(c.name, "disjoint_inserts" | "same_label_updates" | "mixed_batches") && c.sc.actors.len() == 2 && c.sc.writer_cache == CacheCfg::None) {
+        let mut sc = c.sc.clone();
+        sc.faults = 1;
+        sc.faultable = real_call;
+        sc.gate_vrf = false;
+        faulty.push(ScCase {
+            name: match c.name {
+                "disjoint_inserts" => "disjoint_inserts_one_fault",
+                "same_label_updates" => "same_label_updates_one_fault",
+                _ => "mixed_batches_one_fault",
+            },
+            sc,
+        });
+    }
+    out.extend(faulty);
     // response-delivery gates (I/O completion order) on two representative scenarios
     let mut extra = vec![];
     for c in out.iter().filter(|c| matches!(c.name, "disjoint_inserts" | "same_label_updates") && c.sc.actors.len() == 2) {
